@@ -155,6 +155,9 @@ fn do_validate<'a>(
     env: &'a RefCell<Environment<StdoutWrapper, StderrWrapper>>,
 ) -> bool {
     println!("Validating {}", file);
+    // Every file is judged on its own assertions only: start it with a fresh
+    // collector so that results of files validated earlier do not leak in.
+    env.borrow_mut().assert_results = build::AssertCollector::new();
     match build_file(file, true, strict, import_paths, env) {
         Ok(b) => {
             if b.assert_results() {
